@@ -273,6 +273,14 @@ func longProg(name string, n, mode int) *cborgen.Prog {
 		nil, func() []cborgen.KV { return []cborgen.KV{cborgen.KStr("s", v), cborgen.KUint("after", 1)} })
 }
 
+// clip shortens a very long text for a report (head and tail kept)
+func clip(s string) string {
+	if len(s) <= 200000 {
+		return s
+	}
+	return s[:1500] + fmt.Sprintf(" ...(%d bytes in all)... ", len(s)) + s[len(s)-300:]
+}
+
 func classify(err error) string {
 	if err == nil {
 		return ""
@@ -332,22 +340,44 @@ func sliceSweep(c *Ctx, r *Rng) []*cborgen.Prog {
 	return ps
 }
 
+// bigSlices: element counts on both sides of the 2-/4-byte width of the array header's count (65535 /
+// 65536) and counts whose low 16 bits are small again (65536..65559).  Go-side only (no model shard: the
+// model's cost grows with the element count): the binary line is checked by the reference parser and its
+// decoded text is compared with the JSON build's line by the same decode-equivalence monitor as every
+// other program.  The cheapest element types at every count; one count each for four further methods.
+func bigSlices(c *Ctx, r *Rng) []*cborgen.Prog {
+	var ps []*cborgen.Prog
+	for j, n := range []int{65535, 65536, 65537, 65559} {
+		ps = append(ps, cborgen.SliceProg(r, "Bools", n, j%2 == 0), cborgen.SliceProg(r, "Uints8", n, j%2 == 1))
+	}
+	ps = append(ps, cborgen.SliceProg(r, "Ints", 65536, false), cborgen.SliceProg(r, "Strs", 65537, true),
+		cborgen.SliceProg(r, "Floats32", 65559, false), cborgen.SliceProg(r, "Uints64", 65536, true))
+	if c.Thorough() {
+		for i, kind := range cborgen.SliceKinds {
+			ps = append(ps, cborgen.SliceProg(r, kind, []int{65536, 65559, 65537, 131072}[i%4], i%2 == 0))
+		}
+	}
+	c.Res.ExtraCoverage["big_slice_programs"] = len(ps)
+	return ps
+}
+
 const hdrBin = "From Verif Require Import Base.Prelude Base.CborSpec Enc.CborEnc Harness.C09H.\nOpen Scope N_scope."
 const hdrDec = "From Verif Require Import Base.Prelude Enc.CborEnc Enc.CborDec Harness.C17H.\nOpen Scope N_scope."
 const hdrJson = "From Verif Require Import Base.Prelude Enc.CborEnc Harness.C09H Harness.C08H.\nOpen Scope N_scope."
 
 func runC08(c *Ctx) {
-	c.Res.Rule = "a case is one logging program of the shared generator (every field method of Event / Context / Array, Dict / Object / EmbedObject / Fields nesting <= 3, context layers, level, message; values restricted to what the property quantifies over: 4/16-byte IPs, 6-byte MACs, canonical prefixes, embedded JSON that is JSON; all times of a program in one location), executed under both build tags from the same seed; plus directed programs: every definite-length typed slice method with 256 and more elements (counts around the 1-/2-/4-byte header widths and counts whose low byte or low 16 bits are below 24), and a grid of fractional instants (seconds x nanoseconds, up to years 1066 and 9999 and both sides of the int64-nanosecond range) through Time, Times, Context.Time and Timestamp; corpus first (Uint(1<<63), Uint64(MaxUint64), Bytes with quote/backslash/newline/0xff, Fields with []error, field-less EmbedObject in a context); non-trivial = at least one field besides the level; distinct by the field-list term"
+	c.Res.Rule = "a case is one logging program of the shared generator (every field method of Event / Context / Array, Dict / Object / EmbedObject / Fields nesting <= 3, context layers, level, message; values restricted to what the property quantifies over: 4/16-byte IPs, 6-byte MACs, canonical prefixes, embedded JSON that is JSON; all times of a program in one location), executed under both build tags from the same seed; plus directed programs: every definite-length typed slice method with 256 and more elements (counts around the 1-/2-byte header widths and counts whose low byte is below 24 with model shards; counts around the 2-/4-byte width, 65535..65559, Go-side only), and a grid of fractional instants (seconds x nanoseconds, up to years 1066 and 9999 and both sides of the int64-nanosecond range) through Time, Times, Context.Time and Timestamp; corpus first (Uint(1<<63), Uint64(MaxUint64), Bytes with quote/backslash/newline/0xff, Fields with []error, field-less EmbedObject in a context); non-trivial = at least one field besides the level; distinct by the field-list term"
 	ps := programs(c)
+	big := bigSlices(c, c.R.Fork())
 	if zerolog.VerifC08EncIsCBOR() {
-		runBinary(c, ps)
+		runBinary(c, ps, big)
 	} else {
-		runJSON(c, ps)
+		runJSON(c, ps, big)
 	}
 }
 
 // ---------------------------------------------------------------- main run: binary build
-func runBinary(c *Ctx, ps []*cborgen.Prog) {
+func runBinary(c *Ctx, ps, big []*cborgen.Prog) {
 	f, err := os.Create(filepath.Join(c.Out, "lines_bin.jsonl"))
 	if err != nil {
 		panic(err)
@@ -405,6 +435,32 @@ func runBinary(c *Ctx, ps []*cborgen.Prog) {
 	}
 	c.Res.ExtraCoverage["programs"] = len(ps)
 	c.Res.ExtraCoverage["build"] = "binary_log"
+	// the big slices (Go-side only): reference parser here, the comparison with the JSON build's line in the variant run
+	if fb, err := os.Create(filepath.Join(c.Out, "lines_big.jsonl")); err == nil {
+		wb := bufio.NewWriter(fb)
+		for i, p := range big {
+			w := &capture{}
+			p.Run(w)
+			in := map[string]interface{}{"big_slice_program": i, "desc": p.Desc}
+			if len(w.bufs) != 1 {
+				c.Violate(Violation{Key: "event-writes", Monitor: "one-write", Desc: fmt.Sprintf("binary build: event produced %d writes", len(w.bufs)), Case: in})
+				continue
+			}
+			bin := w.bufs[0]
+			if _, rest, err := cborref.ParseItem(bin); err != nil || len(rest) != 0 {
+				c.Violate(Violation{Key: "cbor-event-malformed", Monitor: "rfc8949-reference-parser", Desc: "binary build: the event is not exactly one well-formed CBOR item", Case: in, Observed: hex.EncodeToString(bin[:64]) + "..."})
+			}
+			dec, derr := decodeReal(bin)
+			b, _ := json.Marshal(lineRec{I: i, Bin: hex.EncodeToString(bin), Dec: hex.EncodeToString(dec), Err: derr})
+			wb.Write(b)
+			wb.WriteByte('\n')
+			c.Hist("big_slice_elements", fmt.Sprintf("%v", p.Desc["elements"]))
+		}
+		wb.Flush()
+		fb.Close()
+	} else {
+		panic(err)
+	}
 	// directed: fractional instants on a grid of seconds x nanoseconds, judged against the instant
 	// that was logged ("the same instant within one microsecond"; the JSON build prints it exactly
 	// under TimeFieldFormat = RFC3339Nano).  Far from the epoch the float64 seconds of CBOR tag 1
@@ -604,7 +660,7 @@ func cmp(path string, d, j oracle.Value) (key, msg string) {
 	return "", ""
 }
 
-func runJSON(c *Ctx, ps []*cborgen.Prog) {
+func runJSON(c *Ctx, ps, big []*cborgen.Prog) {
 	// the main run's lines
 	bin := map[int]lineRec{}
 	parent := filepath.Dir(filepath.Clean(c.Out))
@@ -623,6 +679,30 @@ func runJSON(c *Ctx, ps []*cborgen.Prog) {
 	}
 	c.OpenShards(hdrJson, "((jtables * tables) * (list (list N * cval) * list (list N * cval) * list (list N * cval))) * list N", "mismatches c08_run_json c09_eqb", 80)
 	compared, floats := 0, 0
+	// compare: the decode-equivalence monitor on one program (r = the binary run's record, line = this build's line)
+	compare := func(cs map[string]interface{}, r lineRec, dec, line []byte) {
+		if r.Err != "" {
+			c.Violate(Violation{Key: "decoded-not-json", Monitor: "decode-equivalence", Desc: "the decoder reported an error on a line of the binary build: " + r.Err, Case: cs})
+			return
+		}
+		if bytes.Count(dec, []byte("\n")) != 1 || !bytes.HasSuffix(dec, []byte("\n")) {
+			c.Violate(Violation{Key: "decoded-not-json", Monitor: "decode-equivalence", Desc: "the decoded text is not one line", Case: cs})
+			return
+		}
+		dv, err := oracle.ParseJSON(bytes.TrimSuffix(dec, []byte("\n")))
+		if err != nil || dv.Kind != 'o' {
+			c.Violate(Violation{Key: "decoded-not-json", Monitor: "decode-equivalence", Desc: fmt.Sprintf("the decoded text is not one JSON object: %v", err), Case: cs})
+			return
+		}
+		jv, err := oracle.CheckEventLine(line)
+		if err != nil {
+			c.Violate(Violation{Key: "json-line-invalid", Monitor: "decode-equivalence", Desc: "the JSON build's line is not one JSON object on one line: " + err.Error(), Case: cs})
+			return
+		}
+		if k, m := cmp("$", dv, jv); k != "" {
+			c.Violate(Violation{Key: k, Monitor: "decode-equivalence", Desc: "binary build decoded vs JSON build: " + m, Case: cs, Observed: clip(string(dec)), Expected: clip(string(line))})
+		}
+	}
 	for i, p := range ps {
 		w := &capture{}
 		p.Run(w)
@@ -649,32 +729,45 @@ func runJSON(c *Ctx, ps []*cborgen.Prog) {
 		}
 		compared++
 		dec, _ := hex.DecodeString(r.Dec)
-		cs := map[string]interface{}{"program": i, "desc": p.Desc, "binary_hex": r.Bin, "decoded": string(dec), "json_line": string(line)}
-		if r.Err != "" {
-			c.Violate(Violation{Key: "decoded-not-json", Monitor: "decode-equivalence", Desc: "the decoder reported an error on a line of the binary build: " + r.Err, Case: cs})
-			continue
-		}
-		if bytes.Count(dec, []byte("\n")) != 1 || !bytes.HasSuffix(dec, []byte("\n")) {
-			c.Violate(Violation{Key: "decoded-not-json", Monitor: "decode-equivalence", Desc: "the decoded text is not one line", Case: cs})
-			continue
-		}
-		dv, err := oracle.ParseJSON(bytes.TrimSuffix(dec, []byte("\n")))
-		if err != nil || dv.Kind != 'o' {
-			c.Violate(Violation{Key: "decoded-not-json", Monitor: "decode-equivalence", Desc: fmt.Sprintf("the decoded text is not one JSON object: %v", err), Case: cs})
-			continue
-		}
-		jv, err := oracle.CheckEventLine(line)
-		if err != nil {
-			c.Violate(Violation{Key: "json-line-invalid", Monitor: "decode-equivalence", Desc: "the JSON build's line is not one JSON object on one line: " + err.Error(), Case: cs})
-			continue
-		}
-		if k, m := cmp("$", dv, jv); k != "" {
-			c.Violate(Violation{Key: k, Monitor: "decode-equivalence", Desc: "binary build decoded vs JSON build: " + m, Case: cs, Observed: string(dec), Expected: string(line)})
-		}
+		compare(map[string]interface{}{"program": i, "desc": p.Desc, "binary_hex": r.Bin, "decoded": string(dec), "json_line": string(line)}, r, dec, line)
 		if i < 2 {
 			c.Sample(map[string]interface{}{"program": in, "json_line": string(line), "decoded": string(dec)})
 		}
 	}
+	// the big slices (Go-side only): the same monitor, against the binary run's lines_big.jsonl
+	bigCompared := 0
+	if fh, err := os.Open(filepath.Join(parent, "lines_big.jsonl")); err == nil {
+		recs := map[int]lineRec{}
+		sc := bufio.NewScanner(fh)
+		sc.Buffer(make([]byte, 1<<20), 1<<28)
+		for sc.Scan() {
+			var r lineRec
+			if json.Unmarshal(sc.Bytes(), &r) == nil {
+				recs[r.I] = r
+			}
+		}
+		fh.Close()
+		for i, p := range big {
+			r, ok := recs[i]
+			if !ok {
+				continue
+			}
+			w := &capture{}
+			p.Run(w)
+			in := map[string]interface{}{"big_slice_program": i, "desc": p.Desc}
+			if len(w.bufs) != 1 {
+				c.Violate(Violation{Key: "event-writes", Monitor: "one-write", Desc: fmt.Sprintf("JSON build: event produced %d writes", len(w.bufs)), Case: in})
+				continue
+			}
+			line := w.bufs[0]
+			dec, _ := hex.DecodeString(r.Dec)
+			bigCompared++
+			compare(map[string]interface{}{"big_slice_program": i, "desc": p.Desc, "binary_hex": clip(r.Bin), "decoded": clip(string(dec)), "json_line": clip(string(line))}, r, dec, line)
+		}
+	} else if len(bin) > 0 {
+		c.Note("no lines_big.jsonl in %s: the big-slice comparison was skipped", parent)
+	}
+	c.Res.ExtraCoverage["compared_big_slice_programs"] = bigCompared
 	c.Res.ExtraCoverage["compared_programs"] = compared
 	c.Res.ExtraCoverage["floats_checked_f_vs_e"] = floats
 	c.Res.ExtraCoverage["build"] = "json"
